@@ -60,6 +60,12 @@ def run_shard(desc, ctx):
         run_case({'kind': 'model', 'seed': [desc['seed'], desc['shard'], i, 6]}, ctx)
     for i in range(desc['pca']):
         run_case({'kind': 'pca', 'seed': [desc['seed'], desc['shard'], i, 66]}, ctx)
+    if desc['shard'] == 11:
+        # thousands of templates with a narrow id type: template id x number of local channels exceeds 16 bits
+        run_case({'kind': 'model', 'seed': [desc['seed'], desc['shard'], 2000, 6], 'many_templates': True}, ctx)
+    if desc['shard'] == 14:
+        # one request of more than 6000 spikes that all have an extracted waveform
+        run_case({'kind': 'pca', 'seed': [desc['seed'], desc['shard'], 1000, 66], 'big': True}, ctx)
 
 
 def run_case(case, ctx):
@@ -189,7 +195,16 @@ def _model(case, ctx):
         # sparse templates whose column table is as wide as the feature store (it must not be taken for the features' table)
         opts.update(sparse_templates=True, clusters='same')
         opts['tnloc'] = opts['nc'] if feat == 'dense' else 4
+    if case.get('many_templates'):
+        opts.update(features='sparse', nt=2100, nc=40, nloc=32, ns=2400, dtype_ids='uint16', clusters='same', spikeless='none', tfeatures=False, feat_pad=None)
+        opts.pop('feat_rows_mode', None)
     spec = random_spec(rng, **opts)
+    if case.get('many_templates'):
+        # (make sure the highest templates own spikes)
+        st_ = spec.spike_templates.copy()
+        st_[-60:] = np.arange(2040, 2100).astype(st_.dtype)
+        spec.spike_templates = st_
+        spec.spike_clusters = st_.copy() if spec.spike_clusters is not None else None
     d = scratch_dir('c06_')
     desc = {'seed': case['seed'], 'opts': opts}
     try:
@@ -349,8 +364,8 @@ def _tfeatures(m, spec, desc, ctx, rng):
 def _pca(case, ctx):
     from phylib.io.model import load_model
     rng = np.random.default_rng(case['seed'])
-    n_samples = int(rng.integers(200, 500))
-    spec = random_spec(rng, raw=['int16', 'float32'][int(rng.integers(0, 2))], n_samples=n_samples, ns=int(rng.integers(30, 70)),
+    n_samples = int(rng.integers(200, 500)) if not case.get('big') else 9000
+    spec = random_spec(rng, raw=['int16', 'float32'][int(rng.integers(0, 2))], n_samples=n_samples, ns=int(rng.integers(30, 70)) if not case.get('big') else 6200,
                        nt=int(rng.integers(2, 4)), nc=int(rng.integers(3, 6)), nsw=int(rng.integers(4, 7)), rate=100.)
     if case['seed'][2] % 2:
         spec.notes['n_closest_channels'] = 3        # the store keeps 3 channels per spike: spikes of different templates differ in their channels
@@ -377,7 +392,7 @@ def _pca(case, ctx):
                 np.random.seed(case['seed'][2])
                 call(m.save_spikes_subset_waveforms, max_n_spikes_per_template=3, max_n_channels=1, sample2unit=1.)
                 ctx.cell('pca', 'extracted_twice')
-            rs = call(m.save_spikes_subset_waveforms, max_n_spikes_per_template=[40, 12, 8][case['seed'][2] % 3], max_n_channels=2, sample2unit=factor)
+            rs = call(m.save_spikes_subset_waveforms, max_n_spikes_per_template=[40, 12, 8][case['seed'][2] % 3] if not case.get('big') else 7000, max_n_channels=2, sample2unit=factor)
             if not rs.ok or m.spike_waveforms is None:
                 ctx.violation('raised', desc, 'building the waveform store failed: %r' % (rs.exc,), dict(f, exc=rs.exc_name), tb=rs.tb)
                 return
@@ -390,7 +405,7 @@ def _pca(case, ctx):
                 return
             A = spec.traces_truth()
             ns = spec.n_spikes
-            ids = np.sort(rng.permutation(ns)[:int(rng.integers(ns // 2, ns + 1))])
+            ids = np.sort(rng.permutation(ns)[:int(rng.integers(ns // 2, ns + 1))]) if not case.get('big') else np.arange(ns)
             ch = rng.permutation(spec.n_channels)[:int(rng.integers(1, spec.n_channels + 1))]
             rr = call(m.get_features, ids, ch)
             if not rr.ok:
@@ -414,6 +429,7 @@ def _pca(case, ctx):
                     if c in stored:
                         W[a, :, j] = window(A, spec.spike_samples[s], nsw, [c])[:, 0].astype(np.float64) * factor
             judged = 0
+            pos_in_req = {int(s): i_ for i_, s in enumerate(ids.tolist())}
             for j in range(len(ch)):
                 X = W[:, :, j]
                 cov = np.cov(X, rowvar=False)
@@ -426,7 +442,7 @@ def _pca(case, ctx):
                     if vals[0] <= 1e-9 or min(gaps) / scale < 1e-6:
                         continue
                     e = X @ vecs[:, comp].astype(np.float32).astype(np.float64)
-                    got = np.array([out[list(ids).index(s), j, comp] for s in have], dtype=np.float64)
+                    got = out[[pos_in_req[s] for s in have], j, comp].astype(np.float64)
                     tol = 1e-4 * max(1.0, np.abs(e).max())
                     judged += 1
                     if not (np.allclose(got, e, atol=tol, rtol=1e-4) or np.allclose(got, -e, atol=tol, rtol=1e-4)):
